@@ -200,7 +200,7 @@ theorem cn_exp (dot : Bool) (exp : Option Exponent) (rest : List Char)
         isDigit m = false ∧ (m == '.') = false ∧ (m == 'e' || m == 'E') = true := by
       intro m hm; rcases hm with rfl | rfl <;> decide
     obtain ⟨c1, c2, c3⟩ := hm (if e.upper then 'E' else 'e') (by cases e.upper <;> simp)
-    simp only [renderExp, List.singleton_append, List.append_assoc, List.cons_append,
+    simp only [renderExp, List.append_assoc, List.cons_append,
       List.length_cons, List.length_append, List.length_map]
     rw [countNumber.eq_def]
     simp only [c1, c2, c3, Bool.false_eq_true, ↓reduceIte, Bool.false_and]
@@ -209,7 +209,7 @@ theorem cn_exp (dot : Bool) (exp : Option Exponent) (rest : List Char)
       have hsg : ∃ b, renderSign (some sg) = [b] ∧ isSign b = true := by
         cases sg <;> exact ⟨_, rfl, by decide⟩
       obtain ⟨b, hb, hbs⟩ := hsg
-      simp only [hb, List.singleton_append, List.length_singleton, List.nil_append,
+      simp only [hb, List.nil_append,
         List.cons_append, List.length_nil, List.length_cons, hbs, ↓reduceIte,
         cw_digits e.digits hd rest h, drop_map_append, cn_stop dot rest h]
       omega
@@ -527,7 +527,7 @@ theorem render_head : ∀ (e : NExpr) (ws : Layout), LayoutOK e ws →
       fun _ => by decide⟩
   | .call f args, ws, _ => by
     rw [render_call]
-    cases f <;> exact ⟨_, _, by simp only [Fn.name, List.cons_append]; rfl, by decide,
+    cases f <;> exact ⟨_, _, by simp only [Fn.name]; rfl, by decide,
       fun _ => by decide⟩
 
 /-! ### Lexing one token of a rendering -/
@@ -852,5 +852,75 @@ theorem lexFuel_irrelevant : ∀ (f1 f2 : Nat) (e : Bool) (s : List Char), s.len
 theorem lexes_lex_self (s : List Char) : Lexes s (lex s) := by
   intro fuel hf
   exact lexFuel_irrelevant fuel s.length false s hf (Nat.le_refl _)
+
+/-! ### The default layout (one space at every blank position) is admissible -/
+
+theorem rest1_nil : rest1 [] = [] := rfl
+
+mutual
+theorem after_nil : ∀ e : NExpr, (Arith.render e []).2 = []
+  | .lit l => by rw [render_lit]; split <;> rfl
+  | .bin op a b => by
+    rw [render_bin]
+    simp only [after, after_nil a, rest1_nil]
+    exact after_nil b
+  | .paren e => by
+    rw [render_paren]
+    simp only [after, rest1_nil, after_nil e]
+  | .call f args => by
+    rw [render_call]
+    simp only [afterArgs, rest1_nil, afterArgs_nil args]
+theorem afterArgs_nil : ∀ es : List NExpr, (renderArgs es []).2 = []
+  | [] => by rw [renderArgs_nil]
+  | [e] => by rw [renderArgs_one]; exact after_nil e
+  | e :: e' :: es => by
+    rw [renderArgs_cons]
+    simp only [after, afterArgs, after_nil e, rest1_nil]
+    exact afterArgs_nil (e' :: es)
+end
+
+theorem blank_default : Blank (blank1 []) := by
+  intro c hc
+  simp only [blank1, nextBlank, List.mem_singleton] at hc
+  subst hc; decide
+
+mutual
+theorem layoutOK_nil : ∀ e : NExpr, WF e → LayoutOK e []
+  | .lit l, h => ⟨h, fun _ => blank_default⟩
+  | .bin op a b, h => by
+    simp only [WF] at h
+    simp only [LayoutOK, after, after_nil a]
+    exact ⟨layoutOK_nil a h.1, blank_default, blank_default, layoutOK_nil b h.2.1,
+      fun _ hb => by simp [blank1, rest1, nextBlank] at hb⟩
+  | .paren e, h => by
+    simp only [WF] at h
+    simp only [LayoutOK]
+    refine ⟨blank_default, layoutOK_nil e h, ?_⟩
+    show Blank (blank1 (Arith.render e []).2)
+    rw [after_nil e]; exact blank_default
+  | .call f args, h => by
+    simp only [WF] at h
+    simp only [LayoutOK]
+    refine ⟨blank_default, layoutOKArgs_nil args h, ?_⟩
+    show Blank (blank1 (renderArgs args []).2)
+    rw [afterArgs_nil args]; exact blank_default
+theorem layoutOKArgs_nil : ∀ es : List NExpr, WFList es → LayoutOKArgs es []
+  | [], _ => trivial
+  | [e], h => by
+    simp only [WFList] at h
+    simp only [LayoutOKArgs]
+    exact layoutOK_nil e h.1
+  | e :: e' :: es, h => by
+    simp only [WFList] at h
+    simp only [LayoutOKArgs, after, after_nil e]
+    exact ⟨layoutOK_nil e h.1, blank_default, blank_default,
+      layoutOKArgs_nil (e' :: es) (by simp only [WFList]; exact h.2)⟩
+end
+
+/-- Every well-formed expression has an admissible layout: the default one. -/
+theorem queryLayoutOK_nil (e : NExpr) (h : WF e) : QueryLayoutOK e [] := by
+  refine ⟨blank_default, layoutOK_nil e h, ?_⟩
+  show Blank (blank1 (Arith.render e []).2)
+  rw [after_nil e]; exact blank_default
 
 end Anything.C06
